@@ -6,7 +6,10 @@ programs are accepted.  Rejected ones are counted by the caller.
 
 Every program has one struct `foo`, getters for its fields, one or two impure
 methods, and usually a coroutine (reads/writes single bytes and multi-byte
-values, loops, a nested private coroutine or helper)."""
+values, loops, a nested private coroutine or helper).  Also generated: iterate
+loops over byte-array fields (length / advance / unroll drawn from small sets,
+sometimes with an else round), low_bits / high_bits, a choosy helper with a
+`choose` statement, and an io_limit block around the nested coroutine call."""
 
 U = {"u8": 255, "u16": 65535}
 
@@ -71,7 +74,11 @@ class G:
         v = self.var(ty, scope)
         if v is None:
             return a
-        if self.r.random() < 0.5:
+        k2 = self.r.random()
+        if k2 < 0.3 and not v.startswith("("):
+            # (high_bits(n: 0) is avoided only at 32 bits, see KNOWN_FINDINGS C04 o08; u8 / u16 take every count)
+            return "%s.%s(n: %d)" % (v, self.pick(["low_bits", "high_bits"]), self.r.randrange(0, 8 if ty == "u8" else 16))
+        if k2 < 0.65:
             return "%s.min(no_more_than: %s)" % (v, b)
         return "%s.max(no_less_than: %s)" % (v, b)
 
@@ -99,6 +106,8 @@ class G:
                 out += self.field_store(scope, ind)
             elif k < 0.58:
                 out += self.array_op(scope, writable, ind)
+            elif (not coro) and k < 0.67 and depth < 1 and any(a == "it" for a, _ in scope):
+                out += self.iterate(scope, writable, ind)
             elif k < 0.72 and depth < 2:
                 out.append("%sif %s {" % (t, self.cond(scope)))
                 out += self.stmts(scope, writable, self.r.randrange(1, 3), ind + 1, coro, depth + 1)
@@ -169,6 +178,38 @@ class G:
         out.append("%s}" % t)
         return out
 
+    def iterate(self, scope, writable, ind):
+        """iterate over (a part of) a byte-array field: the body reads it[j] for j < length and accumulates into a
+        writable u8 / u16 local (iterate is not allowed in coroutines)"""
+        t = "\t" * ind
+        arrs = [f for f in self.fields if f[2] == "arr" and f[3][0] == "u8"]
+        acc = [w for w in writable if w[1] in U]
+        if not arrs or not acc:
+            return []
+        nm, ty, _, (ety, ln) = self.pick(arrs)
+        length = self.pick([1, 1, 2, 3])
+        advance = self.pick([a for a in (1, 2, 3) if a <= length])
+        unroll = self.pick([1, 1, 2, 4])
+        cut = self.r.randrange(0, ln + 1)
+        rng_ = self.pick(["this.%s[..]" % nm, "this.%s[.. %d]" % (nm, cut), "this.%s[%d ..]" % (nm, cut)])
+        an, aty = self.pick(acc)
+
+        def body(l, ind2):
+            t2 = "\t" * ind2
+            j = self.r.randrange(0, l)
+            e = "it[%d]" % j if aty == "u8" else "(it[%d] as base.u16)" % j
+            o = ["%s%s = (%s ~mod* 3) ~mod+ %s" % (t2, an, an, e)]
+            if self.r.random() < 0.3:
+                o.append("%sit[%d] = %s" % (t2, self.r.randrange(0, l), self.expr("u8", [x for x in scope if x[0] != "it"], 1)))
+            return o
+        out = ["%siterate (it = %s)(length: %d, advance: %d, unroll: %d) {" % (t, rng_, length, advance, unroll)]
+        out += body(length, ind + 1)
+        if length > 1 and self.r.random() < 0.6:
+            out.append("%s} else (length: 1, advance: 1, unroll: %d) {" % (t, self.pick([1, 2])))
+            out += body(1, ind + 1)
+        out.append("%s}" % t)
+        return out
+
     def io(self, scope, writable, ind):
         t = "\t" * ind
         k = self.r.random()
@@ -218,19 +259,34 @@ def generate(rng):
             L.append("pub func foo.get_%s(i: base.u32) base.%s {\n\treturn this.%s[args.i %% %d]\n}\n" % (nm, info[0], nm, info[1]))
     fscope = [("this." + nm, info[0]) for nm, ty, kind, info in g.fields if kind == "num"]
 
-    def locals_block(names):
-        return ["\tvar %s : base.%s" % (n, t) for n, t in names] + ["\tvar i : base.u32[..= 4]", ""]
+    def locals_block(names, it=False):
+        return ["\tvar %s : base.%s" % (n, t) for n, t in names] + ["\tvar i : base.u32[..= 4]"] + (["\tvar it : slice base.u8"] if it else []) + [""]
+
+    # a choosy helper with two alternatives; one impure method selects, the others call it
+    choosy = rng.random() < 0.35
+    if choosy:
+        L.append("pri func foo.pick!(x: base.u8) base.u8,\n\tchoosy,\n{\n\treturn args.x ~mod+ %d\n}\n" % rng.choice([1, 2, 100]))
+        L.append("pri func foo.pick_a!(x: base.u8) base.u8 {\n\treturn args.x ^ %d\n}\n" % rng.choice([1, 0x55, 0xFF]))
+        L.append("pri func foo.pick_b!(x: base.u8) base.u8 {\n\treturn args.x >> %d\n}\n" % rng.choice([1, 3, 7]))
 
     # impure methods
     for k in range(rng.randrange(1, 3)):
         args = [("x", rng.choice(["u8", "u16"])), ("y", rng.choice(["u8", "u16"]))][: rng.randrange(1, 3)]
         locs = [("p", "u8"), ("q", "u16"), ("r", rng.choice(["u8", "u16"]))][: rng.randrange(1, 4)]
-        scope = fscope + [("args." + n, t) for n, t in args] + locs + [("i", "ctr")]
+        use_it = rng.random() < 0.7
+        scope = fscope + [("args." + n, t) for n, t in args] + locs + [("i", "ctr")] + ([("it", "itvar")] if use_it else [])
         g.has_dst = False
         ret = rng.choice([None, "u8", "u16"])
         L.append("pub func foo.m%d!(%s)%s {" % (k, ", ".join("%s: base.%s" % a for a in args), " base." + ret if ret else ""))
-        L += locals_block(locs)
+        L += locals_block(locs, it=use_it)
+        if choosy and k == 0:
+            L.append("\tif %s {" % g.cond(scope))
+            L.append("\t\tchoose pick = [%s]" % rng.choice(["pick_a", "pick_b", "pick_b, pick_a", "pick"]))
+            L.append("\t}")
         L += g.stmts(scope, locs, rng.randrange(2, 6), 1, False)
+        if choosy and any(t == "u8" for _, t in locs):
+            v8 = [n for n, t in locs if t == "u8"][0]
+            L.append("\t%s = this.pick!(x: %s)" % (v8, g.atom("u8", scope)))
         if ret:
             L.append("\treturn %s" % g.expr(ret, scope, 1))
         L.append("}\n")
@@ -259,8 +315,12 @@ def generate(rng):
             if rng.random() < 0.5:
                 call = ["\tthis.sub?(src: args.src)"]
             else:
-                call = ["\tstatus =? this.sub?(src: args.src)", "\tif status.is_error() {", "\t\treturn status", "\t} else if status.is_suspension() {",
-                        "\t\tyield? status", "\t}"]
+                call = ["\tstatus =? this.sub?(src: args.src)"]
+                if rng.random() < 0.6:
+                    # the std idiom: the sub-coroutine sees a limited source, its status is taken as a value inside the block
+                    call = ["\tio_limit (io: args.src, limit: %d as base.u64) {" % rng.choice([0, 1, 2, 3, 5]), "\t" + call[0], "\t}"]
+                call += ["\tif status.is_error() {", "\t\treturn status", "\t} else if status.is_suspension() {",
+                         "\t\tyield? status", "\t}"]
             body = body[:at] + call + body[at:]
         if has_status and rng.random() < 0.4 and locs:
             body += ["\tif %s {" % g.cond(scope), '\t\treturn "#gen failure"', "\t}"]
